@@ -182,6 +182,12 @@ def boundary_cases():
                 cases.append(dict(kind=kind, outcome=['raise', [0, 3, 4, 6][k % 4]], kill=None, order=order, early=False,
                                   raise_how=how, argform=ARGFORMS[k % 4], seed=k))
                 k += 1
+    # no target at all (Process() / Thread() as in the standard library): ends at once, like `return None`
+    for kind in ('process', 'thread'):
+        for first in ACCESSORS:
+            order = [first] + [a for a in ACCESSORS if a != first]
+            cases.append(dict(kind=kind, outcome=['ret', None], kill=None, order=order, early=False, notarget=True, seed=k))
+            k += 1
     # outcomes that cannot cross the pipe: the child fails in send() and ends by itself with status 1 before
     # both messages are sent (for a Thread they are ordinary outcomes)
     for oc in UNPICKLABLE:
@@ -262,7 +268,7 @@ def case_class(case):
     k = case.get('kill')
     if k and k['phase'] == 'random':
         return f"process:{case['outcome'][0]}:random-{'term' if k['sig'] == 15 else 'sig'}"
-    return (f"{case['kind']}:{case['outcome'][0]}:"
+    return (f"{case['kind']}:{'notarget' if case.get('notarget') else case['outcome'][0]}:"
             f"{(k['phase'] + '-' + ('term' if k['sig'] == 15 else 'sig')) if k else 'nokill'}"
             f"{':flood' if case.get('flood') else ''}")
 
@@ -833,7 +839,10 @@ def _inner(case):
         mod_wait, mod_asc = mpt.wait, mpt.as_completed
     form = case.get('argform') or 'args'
     kept = None
-    if form == 'args':
+    if case.get('notarget'):
+        # a worker object created without a target: it runs nothing and ends like one whose target returned None
+        w = cls()
+    elif form == 'args':
         w = cls(target=tgt, args=tuple(vals))
     elif form == 'kwargs_temp':
         w = cls(target=tgt, kwargs=dict(zip(names, vals)))
